@@ -18,7 +18,8 @@ RULE = ("cases from rng(seed, 5, 0, i): SE(2) (even i) / SE(3) (odd i) trajector
         "with rotated offsets, dense SPD information cond<=1e3, initial perturbation sigma_t<=0.15 sigma_r<=0.08, noise sigma_t<=0.03 sigma_r<=0.01; every 4th "
         "case noise-free; landmark offsets incl. exactly zero lever arms; landmarks sometimes sharing one initial-guess object; every 5th case judges the second run on the same "
         "graph object after a vertex was fixed and another nudged), tol in 10^U(-10,-3), max_iter=50. distinct = spec fingerprint; non-trivial = initial chi2 > 100 x final chi2 or > 1e-6, "
-        "with at least 2 complete iterations.")
+        "with at least 2 complete iterations."
+        " later additions: a surveyed (pre-fixed) landmark with the first pose fixed only by the default argument, a loop-closure edge removed between the runs of a history, all information scaled by 1e-12..1e-6 or 1e4..1e9.")
 REQ = ["eval:chi2-not-increased", "eval:converged-within-50", "eval:newton-decrement-small", "eval:noise-free-ground-truth-recovered", "class:se2", "class:se3", "class:loops",
        "class:landmarks", "class:noisy", "class:u_turns(relative rotation ~ pi)", "class:second_run_on_same_graph_after_edits", "class:landmarks_share_one_initial_guess_object", "class:landmark_prefixed_first_pose_fixed_by_default_argument", "class:edge_removed_between_runs", "class:information_scaled_by_1e-12..1e-6", "class:information_scaled_by_1e4..1e9"]
 PLAN = {
